@@ -7,6 +7,7 @@ package main
 // No recover() (C03: nilness panics on it), no goroutines.
 
 import (
+	"encoding/json"
 	"flag"
 	"fmt"
 	"math/rand"
@@ -69,6 +70,8 @@ var gs []int
 var gi I
 var gm map[int]int
 var ge error
+var gmp map[int]*int
+var gsp []*int
 
 var _ = lib.Fresh
 
@@ -77,19 +80,21 @@ var _ = lib.Fresh
 type nty int
 
 const (
-	nPtr nty = iota // *int
-	nPT             // *T
-	nSl             // []int
-	nMap            // map[int]int
-	nI              // I
-	nAny            // any
-	nErr            // error
+	nPtr  nty = iota // *int
+	nPT              // *T
+	nSl              // []int
+	nMap             // map[int]int
+	nMapP            // map[int]*int
+	nSlP             // []*int
+	nI               // I
+	nAny             // any
+	nErr             // error
 	nInt
 	nBool
 	nNTypes
 )
 
-var ntyName = map[nty]string{nPtr: "*int", nPT: "*T", nSl: "[]int", nMap: "map[int]int", nI: "I", nAny: "any", nErr: "error", nInt: "int", nBool: "bool"}
+var ntyName = map[nty]string{nPtr: "*int", nPT: "*T", nSl: "[]int", nMap: "map[int]int", nMapP: "map[int]*int", nSlP: "[]*int", nI: "I", nAny: "any", nErr: "error", nInt: "int", nBool: "bool"}
 
 type nvar struct {
 	name string
@@ -120,6 +125,20 @@ func (g *ngen) w(ind int, f string, a ...any) {
 func (g *ngen) pick(t nty) string {
 	var c []string
 	for _, v := range g.vars {
+		if v.t == t {
+			c = append(c, v.name)
+		}
+	}
+	if len(c) == 0 {
+		return ""
+	}
+	return c[g.r.Intn(len(c))]
+}
+
+// pickOuter picks a variable of type t among vs (the variables of the enclosing scope)
+func (g *ngen) pickOuter(vs []nvar, t nty) string {
+	var c []string
+	for _, v := range vs {
 		if v.t == t {
 			c = append(c, v.name)
 		}
@@ -194,6 +213,10 @@ func (g *ngen) expr(t nty, d int) string {
 			return [...]string{"nil", "[]int{}", "gs", "[]int{1, 2}"}[g.r.Intn(4)]
 		case nMap:
 			return [...]string{"nil", "map[int]int{}", "gm"}[g.r.Intn(3)]
+		case nMapP:
+			return [...]string{"nil", "map[int]*int{}", "gmp", "map[int]*int{0: nil, 1: new(int)}", "map[int]*int{1: nil}"}[g.r.Intn(5)]
+		case nSlP:
+			return [...]string{"nil", "[]*int{}", "gsp", "[]*int{nil}", "[]*int{new(int), nil}"}[g.r.Intn(5)]
 		case nI:
 			return [...]string{"nil", "gi", "I(&T{})", "I((*T)(nil))"}[g.r.Intn(4)]
 		case nAny:
@@ -220,7 +243,17 @@ func (g *ngen) expr(t nty, d int) string {
 	case nBool:
 		return g.boolE()
 	case nPtr:
-		switch g.r.Intn(9) {
+		switch g.r.Intn(12) {
+		case 9:
+			if v := g.pick(nMapP); v != "" {
+				return v + "[" + g.intE() + "]"
+			}
+		case 10:
+			if v := g.pick(nSlP); v != "" {
+				return v + "[0]"
+			}
+		case 11:
+			return "gmp[" + g.intE() + "]"
 		case 0:
 			if v := g.pick(nPT); v != "" {
 				return v + ".f"
@@ -289,6 +322,25 @@ func (g *ngen) expr(t nty, d int) string {
 		if g.ch(30) {
 			return "make(map[int]int)"
 		}
+	case nMapP:
+		if g.ch(30) {
+			return "make(map[int]*int)"
+		}
+	case nSlP:
+		switch g.r.Intn(5) {
+		case 0:
+			e := g.expr(nSlP, d-1)
+			if e == "nil" {
+				e = "[]*int(nil)"
+			}
+			return "append(" + e + ", " + g.expr(nPtr, d-1) + ")"
+		case 1:
+			if v := g.pick(nSlP); v != "" {
+				return v + [...]string{"[:0]", "[:1]", "[1:]"}[g.r.Intn(3)]
+			}
+		case 2:
+			return "make([]*int, " + g.intE() + ")"
+		}
 	case nI:
 		switch g.r.Intn(5) {
 		case 0:
@@ -339,7 +391,51 @@ func (g *ngen) ret(ind int, res []nty, d int) {
 }
 
 func (g *ngen) stmt(ind int, res []nty, d int) {
-	switch g.r.Intn(9) {
+	switch g.r.Intn(12) {
+	case 9: // comma-ok map lookup: the value is nil when the key is missing AND when a nil entry is present
+		m := g.pick(nMapP)
+		if m == "" {
+			m = "gmp"
+		}
+		g.nv++
+		n, ok := fmt.Sprintf("v%d", g.nv), fmt.Sprintf("ok%d", g.nv)
+		if g.ch(50) && d > 0 {
+			g.w(ind, "if %s, %s := %s[%s]; %s%s {", n, ok, m, g.intE(), [...]string{"", "!"}[g.r.Intn(2)], ok)
+			g.w(ind+1, "_ = %s", n)
+			save := g.vars
+			g.vars = append(g.vars, nvar{n, nPtr})
+			g.ret(ind+1, res, 1)
+			g.vars = save
+			g.w(ind, "}")
+			return
+		}
+		g.w(ind, "%s, %s := %s[%s]", n, ok, m, g.intE())
+		g.w(ind, "_, _ = %s, %s", n, ok)
+		g.vars = append(g.vars, nvar{n, nPtr}, nvar{ok, nBool})
+	case 10, 11: // range over a map / slice of pointers: early return or accumulation
+		src, kind := g.pick(nMapP), nMapP
+		if src == "" || g.ch(50) {
+			if s := g.pick(nSlP); s != "" {
+				src, kind = s, nSlP
+			}
+		}
+		if src == "" {
+			src = [...]string{"gmp", "gsp"}[g.r.Intn(2)]
+		}
+		_ = kind
+		g.nv++
+		n := fmt.Sprintf("v%d", g.nv)
+		g.w(ind, "for _, %s := range %s {", n, src)
+		save := g.vars
+		g.vars = append(g.vars, nvar{n, nPtr})
+		if acc := g.pickOuter(save, nPtr); acc != "" && g.ch(50) {
+			g.w(ind+1, "%s = %s", acc, n)
+		} else {
+			g.w(ind+1, "_ = %s", n)
+			g.ret(ind+1, res, 1)
+		}
+		g.vars = save
+		g.w(ind, "}")
 	case 0, 1: // nil check, then return
 		t := nty(g.r.Intn(int(nInt)))
 		if v := g.pick(t); v != "" {
@@ -432,6 +528,10 @@ func (g *ngen) stmt(ind int, res []nty, d int) {
 			g.w(ind, "%s[1] = 2", v)
 			return
 		}
+		if v := g.pick(nMapP); v != "" {
+			g.w(ind, "%s[1] = %s", v, g.expr(nPtr, 1))
+			return
+		}
 		g.w(ind, "_ = 3")
 	case 7: // loop with reassignment
 		t := nty(g.r.Intn(int(nInt)))
@@ -443,7 +543,11 @@ func (g *ngen) stmt(ind int, res []nty, d int) {
 		}
 		g.w(ind, "_ = 4")
 	case 8: // global store
-		switch g.r.Intn(3) {
+		switch g.r.Intn(5) {
+		case 3:
+			g.w(ind, "gmp = %s", g.expr(nMapP, 1))
+		case 4:
+			g.w(ind, "gsp = %s", g.expr(nSlP, 1))
 		case 0:
 			g.w(ind, "gp = %s", g.expr(nPtr, 1))
 		case 1:
@@ -536,7 +640,31 @@ func cmdGenNil(args []string) {
 	n := fs.Int("n", 1, "number of programs (one module directory each)")
 	nf := fs.Int("fns", 12, "functions per program")
 	dir := fs.String("dir", ".", "output directory")
+	ndir := fs.Int("directed", 0, "number of programs the directed (source x shape) family is spread over (0 = none)")
+	full := fs.Bool("full", false, "directed family: every source in every shape (default: one seeded merging shape per source)")
 	fs.Parse(args)
+	if *ndir > 0 {
+		texts, metas := genDirPrograms(*seed, *ndir, *full)
+		for i, text := range texts {
+			d := filepath.Join(*dir, fmt.Sprintf("dir_%d_%d", *seed, i))
+			if err := os.MkdirAll(filepath.Join(d, "lib"), 0o755); err != nil {
+				die("%v", err)
+			}
+			mb, _ := json.Marshal(metas[i])
+			files := map[string]string{
+				"go.mod":       "module ex.test/nilm\n\ngo 1.23\n",
+				"lib/lib.go":   dirLib,
+				"prog.go":      text,
+				"main_stub.go": "//go:build !drv\n\npackage main\n\nfunc main() {}\n",
+				"dirmeta.json": string(mb),
+			}
+			for name, text := range files {
+				if err := os.WriteFile(filepath.Join(d, name), []byte(text), 0o644); err != nil {
+					die("%v", err)
+				}
+			}
+		}
+	}
 	for i := 0; i < *n; i++ {
 		d := filepath.Join(*dir, fmt.Sprintf("nil_%d_%d", *seed, i))
 		if err := os.MkdirAll(filepath.Join(d, "lib"), 0o755); err != nil {
